@@ -1,4 +1,5 @@
 import Pathrs.Proofs.Runs
+import Pathrs.Proofs.FollowVerified
 
 /-!
 # C09 — reopen yields the same inode for any descriptor number
@@ -240,6 +241,25 @@ theorem C09_no_fallback_on_unrelated_failure (env : Env) (hd : ProcH) (base : Pr
           · rename_i he
             exact Or.inl ⟨Or.inr (by rw [hxe, he]), h2⟩
           · obtain ⟨_, he⟩ := Runs.ret_inv h2; cases he
+
+/-- **The one followed open is made only after its link was seen on its directory's own mount.**  For every
+environment: a successful following half of `open_follow` (hence every successful `reopen`) consists of a successful
+`ProcfsHandle::open(parent, O_PATH|O_DIRECTORY)` — whose result was verified on the descriptor itself to be on the
+handle's procfs mount (`C06_lookup_verified`) —, then `statx` of that directory and `statx` of the final component in
+it, whose answers stand for the same mount (nothing is mounted on the link), then the library's only `openat` without
+`O_NOFOLLOW`, on (that directory, that single component), whose answer is the returned descriptor, then the close of
+the directory.  What the link leads to is then the kernel's business (`MagicLinkSameInode`); on a procfs tree with
+mounts that is `C09_reopen_on_mounts`. -/
+theorem C09_follow_verified (env : Env) (hd : ProcH) (base : Procfs.Base) (sub : Bytes) (fl : Nat) {h h' : Hist} {fd : Fd}
+    (hr : Runs (Procfs.openFollowTail env hd base sub fl) h h' (.ok fd)) :
+    ∃ parent trailing pfd h1 h2 h3 rdir rlink rc,
+      Path.pathSplit sub = .ok (parent, some trailing) ∧
+      Runs (Procfs.openH env Procfs.retryFuel hd base parent (O_PATH ||| O_DIRECTORY)) h h1 (.ok pfd) ∧
+      (h1 ++ [(.statx pfd [] STAT_FLAGS STATX_WANT, rdir)]) <+: h2 ∧
+      (h2 ++ [(.statx pfd trailing STAT_FLAGS STATX_WANT, rlink)]) <+: h3 ∧
+      mntOf rdir = mntOf rlink ∧
+      h' = h3 ++ [(Call.openat pfd trailing (fl ||| O_CLOEXEC ||| O_NOCTTY) 0, Resp.fd fd), (Call.close pfd, rc)] :=
+  follow_verified env hd base sub fl hr
 
 /-! ## Non-vacuity -/
 
